@@ -180,7 +180,7 @@ theorem run_handle (j : Nat) (c : Cfg) (hj : j ≠ c.me) (op : Op) (s : St) (hok
   | shutdown => exact (run_handleEnd j c true).run s a s' h hp
   | endSync m => exact (run_handleEndSync j c m).run s a s' h hp
 
-theorem stepOp_run (j : Nat) (c : Cfg) (hj : j ≠ c.me) (s : St) (now : Nat) (op : Op) (orc : List (Query × Bool))
+theorem stepOp_run (j : Nat) (c : Cfg) (hj : j ≠ c.me) (s : St) (now : Nat) (op : Op) (orc : List (Query × Nat))
     (hok : AccOk c j s op) (hp : peerRun j s) : peerRun j (stepOp c s now op orc).1 := by
   unfold stepOp
   cases hr : (handle c op).run { s with now := now, out := [], oracle := orc, oracleBad := 0 } with
